@@ -341,7 +341,97 @@ def dm_targeted_cases(kind):
             yield (p0, True, ops)
 
 
+def stratum_incremental_filtered(chk):
+    """'clearing and reloading' includes the filtered forms: load_filtered_policy(F1), load_increment_filtered_policy(F2), then
+    revocations / re-grants through the API; after every step each decision and role query equals that of a fresh enforcer
+    holding the same policy.  Implementation-level (FilteredFileAdapter on a scratch copy of a policy with two domains)."""
+    import os
+    import tempfile
+    from casbin.persist.adapters import FilteredFileAdapter
+    from casbin.persist.adapters.filtered_file_adapter import Filter
+    text = """[request_definition]
+r = sub, dom, obj, act
+[policy_definition]
+p = sub, dom, obj, act
+[role_definition]
+g = _, _, _
+[policy_effect]
+e = some(where (p.eft == allow))
+[matchers]
+m = g(r.sub, p.sub, r.dom) && r.dom == p.dom && r.obj == p.obj && r.act == p.act
+"""
+    lines = ["p, admin, d1, data1, read", "p, admin, d2, data2, write", "p, editor, d1, data2, read",
+             "g, alice, admin, d1", "g, alice, admin, d2", "g, bob, editor, d1", "g, editor, admin, d1", "g, carol, admin, d2"]
+    subs, doms, objs, acts = ["alice", "bob", "carol", "editor", "admin"], ["d1", "d2"], ["data1", "data2"], ["read", "write"]
+    n = 0
+
+    def view(e):
+        out = {}
+        for s_ in subs:
+            for d_ in doms:
+                out[("roles", s_, d_)] = sorted(e.get_roles_for_user_in_domain(s_, d_))
+                out[("implicit", s_, d_)] = sorted(e.get_implicit_roles_for_user(s_, d_))
+                for o_ in objs:
+                    for a_ in acts:
+                        out[("enforce", s_, d_, o_, a_)] = bool(e.enforce(s_, d_, o_, a_))
+        return out
+
+    def fresh_view(e):
+        f = casbin.Enforcer(casbin.Enforcer.new_model(text=text))
+        for r in e.get_policy():
+            f.add_policy(*r)
+        for r in e.get_grouping_policy():
+            f.add_grouping_policy(*r)
+        return view(f)
+
+    with tempfile.TemporaryDirectory(prefix="c04f_") as dd:
+        pol = os.path.join(dd, "policy.csv")
+        with open(pol, "w") as fh:
+            fh.write("\n".join(lines) + "\n")
+        steps_all = [
+            [("load_filtered", "d1"), ("load_increment", "d2"), ("revoke", ["alice", "admin", "d1"])],
+            [("load_filtered", "d1"), ("load_increment", "d2"), ("revoke", ["editor", "admin", "d1"]), ("grant", ["editor", "admin", "d1"]), ("revoke", ["editor", "admin", "d1"])],
+            [("load_filtered", "d2"), ("load_increment", "d1"), ("delete_user", "alice")],
+            [("load_filtered", "d1"), ("load_increment", "d1"), ("revoke", ["bob", "editor", "d1"])],
+            [("load_filtered", "d1"), ("load_increment", "d2"), ("load_increment", "d2"), ("revoke", ["carol", "admin", "d2"])],
+        ]
+        for steps, probe_each in [(s_, pe) for s_ in steps_all for pe in (True, False)]:
+            # probe_each=False: the first query of a domain comes AFTER the revocation (its role manager is then built
+            # from whatever the load registered)
+            e = casbin.Enforcer(casbin.Enforcer.new_model(text=text), FilteredFileAdapter(pol))
+            e.enable_auto_save(False)
+            done = []
+            for si, st in enumerate(steps):
+                done.append(st)
+                if st[0] == "load_filtered":
+                    flt = Filter(); flt.P = ["", st[1]]; flt.G = ["", "", st[1]]
+                    e.load_filtered_policy(flt)
+                elif st[0] == "load_increment":
+                    flt = Filter(); flt.P = ["", st[1]]; flt.G = ["", "", st[1]]
+                    e.load_increment_filtered_policy(flt)
+                elif st[0] == "revoke":
+                    e.remove_grouping_policy(*st[1])
+                elif st[0] == "grant":
+                    e.add_grouping_policy(*st[1])
+                elif st[0] == "delete_user":
+                    e.delete_user(st[1])
+                if not probe_each and si < len(steps) - 1:
+                    continue
+                got, want = view(e), fresh_view(e)
+                n += 1
+                chk.count(("incremental-filtered", probe_each, repr(done)))
+                if got != want:
+                    k = sorted(x for x in got if got[x] != want[x])[0]
+                    chk.spec_fail(dict(stratum="incremental-filtered", store=lines, steps=[list(x) for x in done], queried_after_every_step=probe_each, query=list(k),
+                                       policy=e.get_policy(), grouping=e.get_grouping_policy()), got[k], want[k],
+                                  "query result differs from a freshly constructed enforcer holding the current policy")
+                    chk.extra.setdefault("strata", {})["incremental_filtered_steps"] = n
+                    return
+    chk.extra.setdefault("strata", {})["incremental_filtered_steps"] = n
+
+
 def run_store_and_matcher(chk, n):
+    stratum_incremental_filtered(chk)
     rng = chk.rng
     strata = chk.extra.setdefault("strata", {})
     for kn in ("rbac", "dom", "rbac_res"):
@@ -363,6 +453,15 @@ def replay(chk):
     import json
     c = (json.load(open(chk.replay_file)).get("case") or {})
     v = c.get("variant")
+    if c.get("stratum") == "incremental-filtered":
+        chk.spec_failures = []
+        stratum_incremental_filtered(chk)
+        if chk.spec_failures:
+            print("replay:", json.dumps(chk.spec_failures[0])[:700])
+            print(f"VIOLATION property={chk.prop} replay={chk.replay_file}")
+            raise SystemExit(1)
+        print("replay passes: the stratum reports nothing on this tree")
+        raise SystemExit(0)
     if v in ("store", "domain-matcher"):
         chk.oracle = None                 # out-of-band store edits / matching functions are outside the Mgmt model
     if v == "domain-matcher":
